@@ -1104,8 +1104,11 @@ class PtychographyDatasetRaster(DatasetConstraints):
             com_fit_r, com_fit_c = com_measured_r, com_measured_c
         elif fit_function == "no_shift":
             com_fit_r, com_fit_c = np.ones_like(com_measured_r), np.ones_like(com_measured_c)
-            com_fit_r = com_fit_r * self.roi_shape[0] / 2
-            com_fit_c = com_fit_c * self.roi_shape[1] / 2
+            # the undeflected beam sits on the zero-frequency pixel of the fftshift convention,
+            # floor(n / 2), for even AND odd detector sizes (n / 2 is half a pixel off for odd n:
+            # the patterns were then Fourier-interpolated by half a pixel instead of left alone)
+            com_fit_r = com_fit_r * (self.roi_shape[0] // 2)
+            com_fit_c = com_fit_c * (self.roi_shape[1] // 2)
         else:
             finite_mask = np.isfinite(com_measured_r)
             com_fit_r, com_fit_c, _com_res_r, _com_res_c = fit_origin(
@@ -1476,7 +1479,7 @@ class PtychographyDatasetRaster(DatasetConstraints):
         self.intensities = intensities
         descan_shifts = -1 * np.stack((com_fit[0].flatten(), com_fit[1].flatten()))
         descan_shifts = -1 * com_fit.reshape((2, -1))  # (2, rr*rc)
-        descan_shifts += self.roi_shape[:, None] / 2
+        descan_shifts += self.roi_shape[:, None] // 2
         self.descan_shifts = descan_shifts.T
         self.initial_descan_shifts = self.descan_shifts.data.clone()
 
